@@ -7,3 +7,18 @@ import "time"
 // VerifExpire forces the next lookup of a file-backed source to refresh (C15 race soak).
 func (r *Hosts) VerifExpire() { r.mu.Lock(); r.expires = time.Time{}; r.mu.Unlock() }
 func (r *DHCP) VerifExpire()  { r.mu.Lock(); r.expires = time.Time{}; r.mu.Unlock() }
+
+// VerifMDNSAge makes every mDNS table entry d older (virtual time for the race soak: code paths
+// that only run for entries that were not announced for a while).
+func (r *MDNS) VerifMDNSAge(d time.Duration) {
+	r.mu.Lock()
+	for k, e := range r.names {
+		e.lastUpdate = e.lastUpdate.Add(-d)
+		r.names[k] = e
+	}
+	for k, e := range r.addrs {
+		e.lastUpdate = e.lastUpdate.Add(-d)
+		r.addrs[k] = e
+	}
+	r.mu.Unlock()
+}
